@@ -32,16 +32,25 @@ def _q15(ea, eb, ec, all_, force, pi, answer, pr_i, lnk, hashing):
     ea, eb, ec, all_, force, answer, lnk, hashing = [True if x else False for x in (ea, eb, ec, all_, force, answer, lnk, hashing)]
     pats = q.pick(PATS, pi)
     plabel, prot = q.pick(PROTECT, pr_i)
-    if lnk and not ea:
+    if lnk and (not ea or sh["shape"] == "dir-output"):
         return q.SKIP
+    if sh["shape"] == "dir-output" and ea:
+        return q.SKIP        # the directory output exists iff something is inside it
     with q.notrace():
         pr = Project(sh["shape"], "slurm", hashing=hashing)
         pr.targets["B"].protect = set(prot)
         pr.add_sources(5)
         w = pr.w
-        for rel, e in (("a", ea), ("b", eb), ("c", ec)):
-            if e:
-                w.file(rel, 6, "output " + rel)
+        if sh["shape"] == "dir-output":
+            w.vfs.dirs.add(ROOT + "/work")
+            w.file("work/notes.md", 1, "unrelated file inside the output directory")
+            for rel, e in (("work/b", eb), ("work/c", ec)):
+                if e:
+                    w.file(rel, 6, "output " + rel)
+        else:
+            for rel, e in (("a", ea), ("b", eb), ("c", ec)):
+                if e:
+                    w.file(rel, 6, "output " + rel)
         if lnk:
             # output a is a symbolic link to an unrelated file
             del w.vfs.files[ROOT + "/a"]
@@ -81,7 +90,7 @@ def _q15(ea, eb, ec, all_, force, pi, answer, pr_i, lnk, hashing):
                 path = ROOT + "/" + o
                 protected = (pr.names[i] == "B" and o == "b" and plabel in ("same spelling", "other spelling", "absolute", "dir/.. spelling"))
                 if path in before and not protected:
-                    removed_want.add(path)
+                    removed_want.add(path)     # (an output that is a directory is not a file of the snapshot: it stays)
         expected = dict(before)
         for p in removed_want:
             del expected[p]
@@ -115,9 +124,9 @@ def q15(ea: bool, eb: bool, ec: bool, all_: bool, force: bool, pi: int, answer: 
 
 QUERIES = [
     {"name": "Q15", "fn": q15,
-     "shards": {"quick": [{"shape": "chain3", "pi": k, "pr": r} for k in range(len(PATS)) for r in (0, 1, 2, 4)] + [{"shape": "fork3", "pi": 0, "pr": r} for r in (0, 2)],
-                "thorough": [{"shape": s, "pi": k, "pr": r} for s in ("chain3", "fork3", "two-ends") for k in range(len(PATS)) for r in range(len(PROTECT))]},
+     "shards": {"quick": [{"shape": "chain3", "pi": k, "pr": r} for k in range(len(PATS)) for r in (0, 1, 2, 4)] + [{"shape": "fork3", "pi": 0, "pr": r} for r in (0, 2)] + [{"shape": "dir-output", "pi": p_, "pr": 0} for p_ in (0, 1, 3)],
+                "thorough": [{"shape": s, "pi": k, "pr": r} for s in ("chain3", "fork3", "two-ends", "dir-output") for k in range(len(PATS)) for r in range(len(PROTECT))]},
      "timeout": {"quick": 1500, "thorough": 3000},
-     "bound": "3 targets (chain: a file that is output of one target and input of the next; fork); existence of every output, --all, --force, prompt answer, spec hashing on/off, output a optionally a symlink to an unrelated file (symbolic bools); "
+     "bound": "3 targets (chain: a file that is output of one target and input of the next; fork; a target whose declared output is a directory that holds other targets' outputs and a stray file); existence of every output, --all, --force, prompt answer, spec hashing on/off, output a optionally a symlink to an unrelated file (symbolic bools); "
               "pattern sets %s (one per shard); protect set of B from %s" % (PATS, [p[0] for p in PROTECT])},
 ]
